@@ -109,7 +109,7 @@ func (s *Sim) auditQueries(r *Rng) {
 		s.Stats.Probe("query_audit_with_3plus_entries")
 	}
 	bad := func(rule, fp, f string, a ...any) {
-		s.violate("C13", rule, fp+s.qTag, fmt.Sprintf(f, a...))
+		s.violate("C13", rule, fp, fmt.Sprintf(f, a...))
 	}
 	// direct lookups of every existing key
 	for i := range amts {
@@ -180,15 +180,13 @@ func (s *Sim) auditQueries(r *Rng) {
 	}
 }
 
-// auditQueriesAfterGenesisRestart: the chain is restarted through its own exported genesis (a fresh
-// application instance, real InitChain with the exported orbiter section) and the whole query audit runs
-// against the new instance: the views must be as faithful there as on the chain that accumulated the
-// totals transfer by transfer.
-func (s *Sim) auditQueriesAfterGenesisRestart(r *Rng) {
+// auditAfterGenesisRestart: the chain is restarted through its own exported genesis (a fresh application
+// instance, real InitChain with the exported orbiter section) and the audits of this check run against the
+// new instance: statistics views (C13), the fold itself (C12), pause sets, paused actions and the limit in
+// force (C08, C09, C18) must be on the restarted chain what they were on the chain that got there message by
+// message.
+func (s *Sim) auditAfterGenesisRestart(r *Rng) {
 	g := s.N.App.OrbiterKeeper.ExportGenesis(s.N.Ctx())
-	if len(g.DispatcherGenesis.DispatchedCounts) == 0 {
-		return
-	}
 	var failure string
 	var n2 *Node
 	func() {
@@ -203,7 +201,6 @@ func (s *Sim) auditQueriesAfterGenesisRestart(r *Rng) {
 		s.Stats.Count("genesis_restart_failed_to_initialise") // C17's business
 		return
 	}
-	s.Stats.Count("rule:C13.after-genesis-restart")
 	s.Stats.Fault("restart_through_exported_genesis")
 	for _, c := range g.DispatcherGenesis.DispatchedCounts {
 		if c.Count > 1 {
@@ -213,14 +210,24 @@ func (s *Sim) auditQueriesAfterGenesisRestart(r *Rng) {
 	}
 	real := s.N
 	s.qNode, s.qTag = n2, " state=restarted-through-exported-genesis"
-	s.N = n2 // the export the audit compares with is taken from the new instance as well
+	s.N = n2 // whatever the audits export to compare with is taken from the new instance as well
 	defer func() { s.N, s.qNode, s.qTag = real, nil, "" }()
-	g2 := n2.App.OrbiterKeeper.ExportGenesis(n2.Ctx())
-	if anyJSON(g2.DispatcherGenesis) != anyJSON(g.DispatcherGenesis) {
-		s.Stats.Count("genesis_restart_export_differs") // C17's business
-		return
+	if hasAudit(s.Prof, "queries") && len(g.DispatcherGenesis.DispatchedCounts) > 0 {
+		s.Stats.Count("rule:C13.after-genesis-restart")
+		s.auditQueries(r)
 	}
-	s.auditQueries(r)
+	if hasAudit(s.Prof, "pausequeries") {
+		s.Stats.Count("rule:C08-C09-C18.queries-after-genesis-restart")
+		s.auditPauseQueries(r)
+	}
+	if s.Prof.Name == "C12" && !s.statsTainted {
+		s.Stats.Count("rule:C12.fold-after-genesis-restart")
+		stats, _, _ := s.exportRender()
+		want := s.Model.RenderStats()
+		if !sameStrs(stats, want) {
+			s.violate("C12", "stats-equal-fold", "statistics-differ-from-fold", fmt.Sprintf("after a restart through the exported genesis: %s", firstDiff(stats, want)))
+		}
+	}
 }
 
 func (s *Sim) listPage(method string, p core.ProtocolID, amounts bool, pr *query.PageRequest) (lines []string, page *query.PageResponse, code uint32, log string) {
@@ -271,7 +278,7 @@ func prefixSiblings(kp [][2]string) bool {
 
 func (s *Sim) walkListing(r *Rng, method string, p core.ProtocolID, want []string, amounts bool, kp [][2]string) {
 	bad := func(fp, f string, a ...any) {
-		s.violate("C13", "listing-and-pagination", fp+" method="+method+s.qTag, fmt.Sprintf("%s(%s): ", method, p)+fmt.Sprintf(f, a...))
+		s.violate("C13", "listing-and-pagination", fp+" method="+method, fmt.Sprintf("%s(%s): ", method, p)+fmt.Sprintf(f, a...))
 	}
 	n := len(want)
 	full, page, code, log := s.listPage(method, p, amounts, &query.PageRequest{Limit: uint64(n + 5), CountTotal: true})
@@ -1100,7 +1107,15 @@ func (s *Sim) auditIDs(r *Rng) {
 			}
 			// R2: the pause covers what it names
 			v, _ := strconv.ParseUint(sid, 10, 32)
-			s.pauseCovers(br, proto, uint32(v), sid)
+			s.pauseCovers(br, proto, uint32(v), sid, "")
+			// ... and keeps meaning the same destination when the chain is restarted through its exported genesis
+			if k%3 == 0 {
+				if g := s.N.App.OrbiterKeeper.ExportGenesis(br); g.Validate() == nil {
+					if tw, failure := s.tryInit(g); failure == "" {
+						s.pauseCovers(tw, proto, uint32(v), sid, " after export and re-initialisation")
+					}
+				}
+			}
 		}
 		// R3: no two accepted strings denote the same destination
 		byVal := map[uint64]string{}
@@ -1156,7 +1171,7 @@ func (s *Sim) auditIDs(r *Rng) {
 
 // pauseCovers: on a branch where (proto, sid) was just paused, a canonical transfer to that
 // domain must be refused — provided the same transfer succeeds without the pause.
-func (s *Sim) pauseCovers(paused sdk.Context, proto string, dom uint32, sid string) {
+func (s *Sim) pauseCovers(paused sdk.Context, proto string, dom uint32, sid string, tag string) {
 	e := s.Env
 	var p *MPayload
 	switch proto {
@@ -1183,6 +1198,6 @@ func (s *Sim) pauseCovers(paused sdk.Context, proto string, dom uint32, sid stri
 	s.Stats.Count("rule:C20.pause-covers-domain")
 	s.Stats.Probe("pause_then_probe_live_domain")
 	if deliver(paused) {
-		s.violate("C20", "pause-covers-what-it-names", "paused id does not stop transfers to that domain", fmt.Sprintf("after a successful pause of %s %q a transfer to domain %d still succeeds", proto, sid, dom))
+		s.violate("C20", "pause-covers-what-it-names", "paused id does not stop transfers to that domain"+tag, fmt.Sprintf("after a successful pause of %s %q%s a transfer to domain %d still succeeds", proto, sid, tag, dom))
 	}
 }
